@@ -54,6 +54,30 @@ Proof.
 Qed.
 Print Assumptions C15_render_pieces.
 
+(* The link to the shot model (Model/Scenario.v): the rendering decisions of the generated requests'
+   X-Ref headers are what the templater model computes for their templates on the tree of the step
+   (tval_of_tree: source part arbitrary, request part = the shot model's t_req):
+   TRef r   = {{.request.r.postprocessor.tok}}: always renders; the captured value, "no value" while
+              nothing is captured;
+   TRefBad r = v={{.request.r.postprocessor.tok.id}}: the step FAILS (after "v=" was written) exactly
+              when r has captured tok in this shot — the failure follows the variable flow. *)
+Theorem C15_render_captured_value :
+  (forall rq (t : ctree) w src r, cq_tmpl rq = TRef r ->
+     exists rd, c_render rq t w = (w, Some rd) /\
+       render false (ref_tmpl r) (tval_of_tree src t)
+       = Some (match rd_ref rd with Some (Some v) => v | _ => s_novalue end)) /\
+  (forall rq (t : ctree) w src r, cq_tmpl rq = TRefBad r ->
+     match snd (c_render rq t w) with
+     | None => render (cq_html rq) (refbad_tmpl r) (tval_of_tree src t) = None
+     | Some rd => rd_ref rd = Some (render (cq_html rq) (refbad_tmpl r) (tval_of_tree src t))
+     end) /\
+  (forall html src (t : ctree) r,
+     render html (refbad_tmpl r) (tval_of_tree src t) = None <-> c_captured_tok t r <> None).
+Proof.
+  split; [exact c_render_ref_spec|]. split; [exact c_render_refbad_spec|exact render_refbad_fails_iff].
+Qed.
+Print Assumptions C15_render_captured_value.
+
 (* Not an idle detail: if the builder came from a pool and went back as it is (not the code;
    exactly the seeded "pooled buffer" change), the URI of the rendering after a failed one starts
    with the leftover of the failed template: "/u/" ++ "/a" instead of "/a". *)
